@@ -61,9 +61,10 @@ PartOf(c) == (SumFrom(c, 2) % NParts) + 1
 VARIABLES part, ch, ok
 vars == <<part, ch, ok, i, out>>
 \* ---- the properties (evaluated inside the action: TLC caches LET values there)
-CascCheck(c) == LET sh == CascSheet(c) info == SheetInfo(sh) IN
-                /\ WFSheet(sh)
-                /\ \A env \in EnvsOf(sh) : WinnerUnique(sh, info, env) /\ LayerOrderTotal(sh, env)
+CascCheck(c) == Bind(CascSheet(c), LAMBDA sh :
+                Bind(SheetInfo(sh), LAMBDA info :
+                  /\ WFSheet(sh)
+                  /\ \A env \in EnvsOf(sh) : WinnerUnique(sh, info, env) /\ LayerOrderTotal(sh, env)))
 NestCheck(c) == NestEquiv(NestLists(c))
 ShortCheck(c) == WFDecl(ShortDecl(c)) /\ ShorthandLaw(ShortDecl(c))
 FamCheck(c) == CASE c[1] = "casc" -> CascCheck(c) [] c[1] = "nest" -> NestCheck(c) [] c[1] = "short" -> ShortCheck(c)
@@ -73,7 +74,7 @@ MCNext == /\ ch = <<>>
           /\ ch' \in {c \in FamChoices(0) : PartOf(c) = part}
           /\ ok' = FamCheck(ch')
           /\ part' = part /\ UNCHANGED <<i, out>>
-          /\ (Export /\ Family = "casc") => PrintT(<<"CASE", ToJson(CaseOf(ch', CascSheet(ch')) @@ [items |-> CascSheet(ch')])>>)
+          /\ (Export /\ Family = "casc") => PrintT(<<"CASE", ToJson(Bind(CascSheet(ch'), LAMBDA sh : CaseOf(ch', sh) @@ [items |-> sh]))>>)
 MCSpec == MCInit /\ [][MCNext]_vars
 \* WinnerUnique + LayerOrderTotal (casc), NestEquiv (nest), ShorthandLaw (short) hold for every enumerated member
 FamilyOK == ok
